@@ -268,6 +268,9 @@ func execRun(in runIn, ev func(k string, f any)) []core.Violation {
 				sig = "c13:panic"
 			}
 			vs = append(vs, core.Violation{Sig: sig, What: fmt.Sprintf("Lookup(%s,%s) panics: %v", path, vers, pan)})
+			// a client that panicked may hold its own locks for ever: go on with a new one, as after a crash
+			emit("Restart", map[string]any{"c": 0})
+			cl = newClient()
 		}
 		cls := "other"
 		tlTrue := ""
